@@ -156,15 +156,22 @@ def h_files(sx):
             _write(tmp, "features/" + rd.filename, rd.text)
         args = ["features/%s" % rds[fi].filename + ("" if ln is None else ":%d" % ln) for fi, ln in locs]
         if p.get("listfile"):
-            body = ["# a comment", ""] + ["  " + a.replace("features/", "") + "  " for a in args] + ["", "# end"]
+            body = ["# a comment", ""] + ["  " + a.replace("features/", "") + "  " for a in args] + \
+                   ["", "   # %s (disabled)" % args[0].replace("features/", ""), "\t#indented", "# end"]
             _write(tmp, "features/list.txt", "\n".join(body) + "\n")
             locations = collect_feature_locations(["@features/list.txt"])
         else:
             locations = collect_feature_locations(args)
         feats = parse_features(locations)
+        err = None
+    except Exception as e:      # noqa
+        feats, err = [], repr(e).replace(tmp, "<tmp>")
     finally:
         os.chdir(cwd)
         shutil.rmtree(tmp, ignore_errors=True)
+    if err is not None:
+        sx.check(False, "C10.files.locations-are-collected-and-parsed", detail={"args": args, "listfile": bool(p.get("listfile")), "error": err})
+        return [err]
     # expected per file: consecutive locations of the same file are grouped
     groups = []
     for fi, ln in locs:
